@@ -18,6 +18,7 @@ Require Import Regen.Ledger.Amount Regen.Ledger.MapSum Regen.Ledger.Inv.
 Require Import Regen.Ledger.InvAdmin Regen.Ledger.InvBase Regen.Ledger.InvBasket Regen.Ledger.InvBridge Regen.Ledger.InvOwn.
 Require Import Regen.Ledger.InvMarketLib Regen.Ledger.InvMarketOrders Regen.Ledger.InvMarketFill Regen.Ledger.InvMarket.
 Require Import Regen.Ledger.InvAllLib Regen.Ledger.InvAllRun Regen.Ledger.InvAllOwn Regen.Ledger.InvAllOwn2.
+Require Import Regen.Ledger.SpellingModel Regen.Ledger.Spelling.
 Import ListNotations RecordSetNotations.
 Local Open Scope Z_scope.
 
@@ -216,3 +217,26 @@ Theorem C03_begin_block : forall t s s',
 Proof. exact begin_block_ownership. Qed.
 Print Assumptions C03_begin_block.
 
+(* ---- address spellings (Ledger/Spelling.v): the ownership statement for a message in ANY spelling, in particular for
+   a MsgSend whose recipient is the sender's own account in the other bech32 spelling (a self-send the string comparison
+   of ValidateBasic lets through): nobody but the signer loses tradable or escrowed credits or coins. ---- *)
+Theorem C03_ownership_for_every_spelling : forall sp e s m,
+  Inv_run s -> forall a, a <> signer m -> nonsigner_safe e m s (deliver_sp sp e s m).1 a.
+Proof. exact ownership_deliver_sp. Qed.
+Print Assumptions C03_ownership_for_every_spelling.
+
+(* a role "transfer" to the holder's own account in the other spelling changes nothing at all *)
+Theorem C03_self_addressed_class_admin_update_is_a_no_op : forall e s a cid s' r evs,
+  handle e s (MUpdateClassAdmin a cid a) = LOk (s', r, evs) -> s' = s.
+Proof. exact self_class_admin_noop. Qed.
+Print Assumptions C03_self_addressed_class_admin_update_is_a_no_op.
+
+Theorem C03_self_addressed_project_admin_update_is_a_no_op : forall e s a pid s' r evs,
+  handle e s (MUpdateProjectAdmin a pid a) = LOk (s', r, evs) -> s' = s.
+Proof. exact self_project_admin_noop. Qed.
+Print Assumptions C03_self_addressed_project_admin_update_is_a_no_op.
+
+Theorem C03_self_addressed_curator_update_is_a_no_op : forall e s a d s' r evs,
+  handle e s (MUpdateCurator a d a) = LOk (s', r, evs) -> s' = s.
+Proof. exact self_curator_noop. Qed.
+Print Assumptions C03_self_addressed_curator_update_is_a_no_op.
